@@ -29,7 +29,7 @@ LEVEL_TEXT = (
 LEVEL_NOTE = "The expected chain comes from CPython's own frame objects captured on the same line; the depth limit is read from uberjob (MAX_TRACEBACK_DEPTH)."
 TECHNIQUE = "property-based testing over generated programs: differential comparison of symbolic tracebacks with an independent sys._getframe walk"
 RULE = (
-    "Hypothesis draws (site kind in 13 kinds, optionally a second harmless route to the same site line before or after, nesting depth 0..8, per-function blank-line padding, worker count, "
+    "(also: the creating line inside a helper called from one line of a generator that two routes advance) Hypothesis draws (site kind in 13 kinds, optionally a second harmless route to the same site line before or after, nesting depth 0..8, per-function blank-line padding, worker count, "
     "scheduler). Non-trivial = depth >= 1 or a site kind other than plan.call. Distinct = SHA-1 of the case."
 )
 ASSUMPTIONS = ["failures of the gathered *output* of run and modified-time failures on registered Literals are outside the statement"]
